@@ -229,7 +229,7 @@ func (r *rewriter) stmt(s ast.Stmt) []ast.Stmt {
 	case *ast.SendStmt:
 		return []ast.Stmt{&ast.ExprStmt{X: &ast.CallExpr{Fun: &ast.SelectorExpr{X: r.expr(x.Chan), Sel: ast.NewIdent("Send")}, Args: []ast.Expr{r.expr(x.Value)}}}}
 	case *ast.SelectStmt:
-		r.fail(x, "select statement")
+		return r.selectStmt(x)
 	case *ast.AssignStmt:
 		if len(x.Lhs) == 2 && len(x.Rhs) == 1 {
 			if u, ok := x.Rhs[0].(*ast.UnaryExpr); ok && u.Op == token.ARROW {
@@ -310,6 +310,70 @@ func (r *rewriter) stmt(s ast.Stmt) []ast.Stmt {
 		x.X = r.expr(x.X)
 	}
 	return []ast.Stmt{s}
+}
+
+// selectStmt rewrites a select statement into vsched.Select over case objects.
+func (r *rewriter) selectStmt(x *ast.SelectStmt) []ast.Stmt {
+	r.used["vsched"] = true
+	var pre []ast.Stmt
+	var args []ast.Expr
+	hasDefault := false
+	sw := &ast.SwitchStmt{Body: &ast.BlockStmt{}}
+	n := 0
+	for _, c := range x.Body.List {
+		cc := c.(*ast.CommClause)
+		if cc.Comm == nil {
+			hasDefault = true
+			sw.Body.List = append(sw.Body.List, &ast.CaseClause{Body: r.list(cc.Body)})
+			continue
+		}
+		r.tmp++
+		name := fmt.Sprintf("verifSel%d", r.tmp)
+		var bind []ast.Stmt
+		switch cm := cc.Comm.(type) {
+		case *ast.SendStmt:
+			pre = append(pre, &ast.AssignStmt{Lhs: []ast.Expr{ast.NewIdent(name)}, Tok: token.DEFINE, Rhs: []ast.Expr{&ast.CallExpr{Fun: sel("vsched", "SendCase"), Args: []ast.Expr{r.expr(cm.Chan), r.expr(cm.Value)}}}})
+		case *ast.ExprStmt:
+			u, ok := cm.X.(*ast.UnaryExpr)
+			if !ok || u.Op != token.ARROW {
+				r.fail(cm, "select case")
+				return nil
+			}
+			pre = append(pre, &ast.AssignStmt{Lhs: []ast.Expr{ast.NewIdent(name)}, Tok: token.DEFINE, Rhs: []ast.Expr{&ast.CallExpr{Fun: sel("vsched", "RecvCase"), Args: []ast.Expr{r.expr(u.X)}}}})
+		case *ast.AssignStmt:
+			u, ok := cm.Rhs[0].(*ast.UnaryExpr)
+			if !ok || u.Op != token.ARROW || len(cm.Rhs) != 1 {
+				r.fail(cm, "select case")
+				return nil
+			}
+			pre = append(pre, &ast.AssignStmt{Lhs: []ast.Expr{ast.NewIdent(name)}, Tok: token.DEFINE, Rhs: []ast.Expr{&ast.CallExpr{Fun: sel("vsched", "RecvCase"), Args: []ast.Expr{r.expr(u.X)}}}})
+			rhs := []ast.Expr{&ast.SelectorExpr{X: ast.NewIdent(name), Sel: ast.NewIdent("Val")}}
+			if len(cm.Lhs) == 2 {
+				rhs = append(rhs, &ast.SelectorExpr{X: ast.NewIdent(name), Sel: ast.NewIdent("Ok")})
+			}
+			bind = append(bind, &ast.AssignStmt{Lhs: cm.Lhs, Tok: cm.Tok, Rhs: rhs})
+			if cm.Tok == token.DEFINE {
+				// keep the compiler quiet if the body does not use the variables
+				for _, l := range cm.Lhs {
+					if id, ok := l.(*ast.Ident); ok && id.Name != "_" {
+						bind = append(bind, &ast.AssignStmt{Lhs: []ast.Expr{ast.NewIdent("_")}, Tok: token.ASSIGN, Rhs: []ast.Expr{ast.NewIdent(id.Name)}})
+					}
+				}
+			}
+		default:
+			r.fail(cc, "select case")
+			return nil
+		}
+		args = append(args, ast.NewIdent(name))
+		sw.Body.List = append(sw.Body.List, &ast.CaseClause{List: []ast.Expr{&ast.BasicLit{Kind: token.INT, Value: strconv.Itoa(n)}}, Body: append(bind, r.list(cc.Body)...)})
+		n++
+	}
+	hd := "false"
+	if hasDefault {
+		hd = "true"
+	}
+	sw.Tag = &ast.CallExpr{Fun: sel("vsched", "Select"), Args: append([]ast.Expr{ast.NewIdent(hd)}, args...)}
+	return []ast.Stmt{&ast.BlockStmt{List: append(pre, sw)}}
 }
 
 func (r *rewriter) genDecl(gd *ast.GenDecl) {
